@@ -455,12 +455,16 @@ impl Python {
 
         let mut field_type = python_type;
 
+        if custom_translations.is_some() {
+            // register the type itself, not its `Optional[..]` wrapping, so that
+            // the translation functions are emitted at the end of the file.
+            self.types_for_custom_json_translation
+                .insert(field_type.clone());
+        }
         if not_optional_but_default {
             field_type = format!("Optional[{field_type}]");
         }
         if let Some(custom_translation) = custom_translations {
-            self.types_for_custom_json_translation
-                .insert(field_type.clone());
             field_type = format!(
                 "Annotated[{field_type}, BeforeValidator({}), PlainSerializer({})]",
                 custom_translation.deserialization_name, custom_translation.serialization_name
